@@ -65,9 +65,17 @@ fn feed_diag(s: &mut DiagSys, draws: &[Vec<f64>], grads: &[Vec<f64>]) -> bool {
 }
 
 fn diag_exactness(d: usize, cond: f64, p: &mut Partial, tier: Tier) {
+    diag_exactness_scaled(d, cond, 0.37, p, tier)
+}
+
+/// `base`: the smallest standard deviation (all of them tiny or all huge in high dimension makes
+/// the product of the scales leave the f64 range although every scale and the log-determinant
+/// are perfectly representable)
+fn diag_exactness_scaled(d: usize, cond: f64, base: f64, p: &mut Partial, tier: Tier) {
     // sigma spread over the condition number, non-zero means
-    let sigma: Vec<f64> = (0..d).map(|i| cond.powf(0.5 * i as f64 / (d.max(2) - 1) as f64) * 0.37).collect();
-    let mu: Vec<f64> = (0..d).map(|i| 1.5 - 0.8 * i as f64).collect();
+    let sigma: Vec<f64> = (0..d).map(|i| cond.powf(0.5 * i as f64 / (d.max(2) - 1) as f64) * base).collect();
+    // (means proportional to the overall scale, so that the draws can represent the spread)
+    let mu: Vec<f64> = (0..d).map(|i| (1.5 - 0.8 * i as f64) * (base / 0.37)).collect();
     // lattice of 6 points whose coordinates are pairwise different in every dimension
     let ts: Vec<Vec<f64>> = (0..6)
         .map(|k| (0..d).map(|i| ((k as f64 + 1.0) * (0.83 + 0.29 * i as f64)).sin() * 1.7 + 0.11 * k as f64).collect())
@@ -106,7 +114,18 @@ fn diag_exactness(d: usize, cond: f64, p: &mut Partial, tier: Tier) {
         p.evaluations += 1;
         let stds = nv::diag_mass_matrix_stds(&s.mm, &mut s.math);
         let mean = nv::diag_mass_matrix_mean(&s.mm, &mut s.math);
-        let key = format!("diag-exact/d{d}/cond{cond:e}");
+        let key = format!("diag-exact/d{d}/cond{cond:e}{}", if base == 0.37 { String::new() } else { format!("/base{base:e}") });
+        // log-determinant of the transformation y = (x - mu) / sigma
+        let logdet = nv::diag_mass_matrix_logdet(&s.mm);
+        let want_logdet: f64 = -sigma.iter().map(|t| t.ln()).sum::<f64>();
+        if !(logdet.is_finite() && mc_core::rel_close(logdet, want_logdet, 1e-7, 1e-7)) {
+            p.violation(
+                format!("C08/log-determinant-not-that-of-the-scales/{key}"),
+                format!("draw set {set:?}: logdet {logdet}, -sum ln sigma = {want_logdet}"),
+                json!({"d": d, "cond": cond, "base": base, "set": set}),
+            );
+            return;
+        }
         let ok = changed
             && (0..d).all(|i| mc_core::rel_close(stds[i], sigma[i], 1e-8, 0.0))
             && (0..d).all(|i| mc_core::rel_close(mean[i], mu[i], 1e-7, 1e-9 * sigma[i]));
@@ -535,6 +554,7 @@ pub fn run(tier: Tier, _replay: Option<String>) -> i32 {
     #[derive(Clone)]
     enum Job {
         DiagExact(usize, f64),
+        DiagExactScaled(usize, f64),
         DiagWindows(bool),
         DiagInit,
         LowRankExact(usize, usize, f64),
@@ -554,6 +574,10 @@ pub fn run(tier: Tier, _replay: Option<String>) -> i32 {
                 }
             }
         }
+    }
+    // (the estimators clamp every scale to [1e-10, 1e10]: the alphabet stays inside)
+    for (d, base) in [(50usize, 1e-7), (50, 1e7), (40, 1e-8), (33, 3e9)] {
+        jobs.push(Job::DiagExactScaled(d, base));
     }
     for d in 1..=tier.pick(6usize, 12) {
         for cond in [1.0, 1e3, 1e6, 1e12] {
@@ -583,6 +607,7 @@ pub fn run(tier: Tier, _replay: Option<String>) -> i32 {
             Job::DiagExact(d, c) => diag_exactness(*d, *c, &mut p, tier),
             Job::DiagWindows(gb) => diag_degeneracy(&mut p, *gb, tier),
             Job::DiagInit => diag_init_degeneracy(&mut p),
+            Job::DiagExactScaled(d, b) => diag_exactness_scaled(*d, 1.0, *b, &mut p, tier),
             Job::LowRankExact(d, k, c) => lowrank_exactness(*d, *k, *c, &mut p),
             Job::LowRankSmallWindow(d, n, k, c) => lowrank_small_window(*d, *n, *k, *c, &mut p),
             Job::LowRankWindows => lowrank_degeneracy(&mut p, tier),
@@ -597,7 +622,7 @@ pub fn run(tier: Tier, _replay: Option<String>) -> i32 {
         p.transitions = p.evaluations;
         p.validated = p.evaluations;
         if p.samples.is_empty() {
-            p.sample(json!({"job": match j { Job::DiagExact(d, c) => format!("diag exactness d={d} cond={c:e}"), Job::DiagWindows(g) => format!("diag windows grad_based={g}"), Job::DiagInit => "gradient initialiser".into(), Job::LowRankExact(d, k, c) => format!("low-rank exactness d={d} rank={k} cond={c:e}"), Job::LowRankSmallWindow(d, n, k, c) => format!("low-rank small window d={d} n={n} rank={k} cond={c:e}"), Job::LowRankWindows => "low-rank windows".into(), Job::Closed(pr, d) => format!("closed loop {pr:?} d={d}") }}));
+            p.sample(json!({"job": match j { Job::DiagExact(d, c) => format!("diag exactness d={d} cond={c:e}"), Job::DiagExactScaled(d, b) => format!("diag exactness d={d} base scale {b:e}"), Job::DiagWindows(g) => format!("diag windows grad_based={g}"), Job::DiagInit => "gradient initialiser".into(), Job::LowRankExact(d, k, c) => format!("low-rank exactness d={d} rank={k} cond={c:e}"), Job::LowRankSmallWindow(d, n, k, c) => format!("low-rank small window d={d} n={n} rank={k} cond={c:e}"), Job::LowRankWindows => "low-rank windows".into(), Job::Closed(pr, d) => format!("closed loop {pr:?} d={d}") }}));
         }
         report.merge(p);
     });
